@@ -449,6 +449,10 @@ class CompoundInterval(Location):
             raise LocationException("Lists of start and end positions must be nonempty and have same length")
         parent_obj = make_parent(parent) if parent else None
         if parent_obj:
+            if parent_obj.sequence is not None and max(ends) > len(parent_obj.sequence):
+                raise InvalidPositionException(
+                    f"End position ({max(ends)}) must be <= parent length ({len(parent_obj.sequence)})"
+                )
             if parent_obj.location:
                 single_interval_parent = Parent(
                     id=parent_obj.id,
